@@ -133,9 +133,13 @@ def run(ctx, progs):
                         for s2 in subterms(k):
                             if s2[0] == 'agg' and str(s2[1]).endswith("io::ErrorKind"):
                                 kinds.append(s2[2])
+                    # `matches!(e.kind(), ErrorKind::Interrupted)` tests the discriminant of kind(): the same condition
+                    if r[0] == 'variant' and is_call(unref(r[1]), "Error::kind") and any(x == S for x in subterms(unref(r[1]))):
+                        kinds.append(r[2])
                 # no other condition may lead back: the latch facts that mention S must be exactly these
                 extra = [r for r in facts if any(x == S for x in subterms(unref(r[1]) if r[0] != 'cmp' else unref(r[2]))) and not (
-                    (r[0] == 'discr' and unref(r[1]) in (S, ('vfield', S, 'Err', 0))) or (r[0] == 'cmp' and is_call(unref(r[2]), "Error::kind")))]
+                    (r[0] in ('discr', 'variant') and unref(r[1]) in (S, ('vfield', S, 'Err', 0))) or (r[0] == 'cmp' and is_call(unref(r[2]), "Error::kind")) or
+                    (r[0] in ('discr', 'variant') and is_call(unref(r[1]), "Error::kind")))]
                 ok = is_err and is_io and kinds == ["Interrupted"] and not extra
                 detail = f"back edge taken iff result is Err [{is_err}] of variant IOError [{is_io}] with kind() == {kinds} (must be exactly Interrupted); other conditions on the retry: {len(extra)}"
             ctx.ob("R14.1.retry_loop", inst, ok, c.where(), detail)
